@@ -406,8 +406,70 @@ func plainSpec(sp *Spec) bool {
 }
 
 // common tail: finder on every history, shards of cases for the model comparison, evidence counters
+// obsKey: the canonical observables of a run as one string (what the model comparison and the finders look at)
+func obsKey(r *Result) string {
+	o := observe(r)
+	var b strings.Builder
+	for _, l := range [][]Rec{o.Down, o.Up, o.Filters} {
+		for _, x := range l {
+			fmt.Fprintf(&b, "%s/%d/%v/%d/%s;", x.Kind, x.K, x.End, x.Code, strings.SplitN(x.Aux, "@", 2)[0])
+		}
+		b.WriteString("|")
+	}
+	fmt.Fprintf(&b, "%v/%d/%d/%v/%s", o.Done, o.Gauge, o.Res, o.Destroyed, r.Panicked)
+	return b.String()
+}
+
+// stabilise: every history is run a second time; when the two observations differ (a genuine race between same-slot events,
+// or a sub-handler timing glitch such as a timer callback already in flight when Stop() is called - outside the model's
+// handler-level atomicity) it is run a third time and an observation seen twice is kept.  A deterministic deviation of the
+// implementation repeats and is kept; how often re-runs were needed is reported in the distribution.
+func stabilise(run *Run, jobs []*histJob) {
+	second := make([]*histJob, len(jobs))
+	for i, j := range jobs {
+		second[i] = &histJob{id: j.id + 1000000, spec: j.spec}
+	}
+	runAll(second, 400)
+	var third []*histJob
+	var idx []int
+	for i, j := range jobs {
+		if second[i].res.Err != "" || obsKey(j.res) == obsKey(second[i].res) {
+			continue
+		}
+		run.Sum.Distribution["unstable:second-run-differs"]++
+		third = append(third, &histJob{id: j.id + 2000000, spec: j.spec})
+		idx = append(idx, i)
+	}
+	if len(third) == 0 {
+		return
+	}
+	runAll(third, 400)
+	for n, t := range third {
+		i := idx[n]
+		if t.res.Err != "" {
+			continue
+		}
+		k1, k2, k3 := obsKey(jobs[i].res), obsKey(second[i].res), obsKey(t.res)
+		switch {
+		case k1 == k3:
+		case k2 == k3:
+			jobs[i].res = second[i].res
+			run.Sum.Distribution["unstable:first-run-outvoted"]++
+		default:
+			run.Sum.Distribution["unstable:three-way"]++
+		}
+	}
+}
+
 func finishProxy(run *Run, jobs []*histJob, finder func(*Run, *histJob), trivial func(*Spec) bool) int {
 	var sh *Shard
+	for _, j := range jobs {
+		if j.res.Err != "" {
+			fmt.Println("harness error:", j.res.Err)
+			return 2
+		}
+	}
+	stabilise(run, jobs)
 	for _, j := range jobs {
 		if j.res.Err != "" {
 			fmt.Println("harness error:", j.res.Err)
